@@ -383,6 +383,10 @@ func (c *c10) randOp(r *rand.Rand, cur PVal) (PEditOp, bool) {
 		case "rep":
 			i := r.Intn(len(f.E) + 1)
 			x := r.Intn(10)
+			if len(f.E) == 1 && r.Intn(2) == 0 {
+				// the last remaining element is removed: the field disappears together with its tag (and, packed, its length)
+				return PEditOp{Op: "Unset", Path: cat(base, PItem{K: "idx", N: 0, B: B{}}), Sub: pNone()}, true
+			}
 			if i < len(f.E) && f.E[i].V.K == "message" && x < 4 {
 				items, v, md = cat(base, PItem{K: "idx", N: i, B: B{}}), f.E[i].V, fd.Message()
 				continue
